@@ -193,40 +193,66 @@ End Digit.
 
 (* ------------------------------------------------------------------ alpha *)
 
+(* the working string of the repaired detectors (Detect.working with
+   aligned = true): lower-cased character by character, a character whose
+   lower() is not one character stays *)
+Section Aligned.
+Variable lower_c : N -> str.
+Notation lower := (Multiword.lower lower_c).
+Notation L := (map (lower1 lower_c)).
+
+(* the only fact about str.lower() needed: it never returns "" for a character *)
+Definition lowne (s : str) : Prop := Forall (fun c => lower_c c <> []) s.
+
+Lemma lowne_app a b : lowne (a ++ b) <-> lowne a /\ lowne b.
+Proof. apply Forall_app. Qed.
+
+Lemma lower_len_ge s : lowne s -> len s <= len (lower s).
+Proof.
+  induction 1 as [|c s Hc _ IH]; [reflexivity|]. unfold Multiword.lower in *. simpl.
+  rewrite len_app, len_cons. destruct (lower_c c) as [|x r]; [congruence|]. rewrite len_cons. pose proof (len_nonneg r). lia.
+Qed.
+
+Lemma lower_same_len s : lowne s -> len (lower s) = len s -> lower s = L s.
+Proof.
+  induction 1 as [|c s Hc Hs IH]; intros Hl; [reflexivity|].
+  unfold Multiword.lower in *. simpl in *. rewrite len_app, len_cons in Hl.
+  pose proof (lower_len_ge s Hs) as Hge. unfold Multiword.lower in Hge.
+  unfold lower1. destruct (lower_c c) as [|x [|y r]]; [congruence| |].
+  - simpl. f_equal. apply IH. rewrite len_cons, len_nil in Hl. lia.
+  - rewrite !len_cons in Hl. pose proof (len_nonneg r). lia.
+Qed.
+
+Lemma working_aligned s : lowne s -> working lower_c true s = L s.
+Proof.
+  intros H. unfold working, lower_aligned. destruct (len (lower s) =? len s) eqn:E; [|reflexivity].
+  apply Z.eqb_eq in E. now apply lower_same_len.
+Qed.
+
+Lemma L_len s : len (L s) = len s.
+Proof. unfold len. now rewrite map_length. Qed.
+
+Lemma L_split w rest z : L rest = w ++ z -> exists r1 r2, rest = r1 ++ r2 /\ L r1 = w /\ L r2 = z.
+Proof. apply map_eq_app. Qed.
+
+End Aligned.
+
 Section Alpha.
 Variables isalpha isupper : N -> bool.
 Variable lower_c : N -> str.
-Notation lower := (Multiword.lower lower_c).
-Notation lenp := (len_preserving lower_c).
-
-(* a prefix of lower(rest) is the image of a prefix of rest *)
-Lemma lower_split : forall w rest z, lenp rest -> lower rest = w ++ z ->
-  exists r1 r2, rest = r1 ++ r2 /\ lower r1 = w /\ lower r2 = z.
-Proof.
-  induction w as [|x w IH]; intros rest z Hp H.
-  - exists [], rest. repeat split. exact H.
-  - destruct rest as [|c rest]; [discriminate|]. inversion Hp as [|? ? Hc Hr]; subst.
-    unfold Multiword.lower in H. simpl in H.
-    destruct (lower_c c) as [|y [|? ?]] eqn:Ec; try discriminate. simpl in H. injection H as -> H.
-    destruct (IH rest z Hr H) as (r1 & r2 & -> & H1 & H2).
-    exists (c :: r1), r2. repeat split; [|assumption].
-    unfold Multiword.lower. simpl. rewrite Ec. simpl. f_equal. exact H1.
-Qed.
+Notation L := (map (lower1 lower_c)).
 
 Lemma alpha_words_spec s : forall words l1 done rest l3 secs masks,
-  s = l1 ++ done ++ rest ++ l3 -> lenp rest -> concat words = lower rest ->
+  s = l1 ++ done ++ rest ++ l3 -> concat words = L rest ->
   alpha_words isupper s (len l1 + len done) words = (secs, masks) ->
-  exists pieces, concat pieces = rest /\ map lower pieces = words /\
-    secs = map (fun pc => (pc, Some (LA (len (lower pc))))) pieces /\ masks = map (case_mask isupper) pieces.
+  exists pieces, concat pieces = rest /\ map L pieces = words /\
+    secs = map (fun pc => (pc, Some (LA (len pc)))) pieces /\ masks = map (case_mask isupper) pieces.
 Proof.
-  induction words as [|w ws IH]; intros l1 done rest l3 secs masks Es Hp Hc H; simpl in H.
+  induction words as [|w ws IH]; intros l1 done rest l3 secs masks Es Hc H; simpl in H.
   - injection H as <- <-. simpl in Hc. exists []. repeat split.
-    symmetry in Hc. destruct rest as [|c rest]; [reflexivity|]. exfalso.
-    inversion Hp as [|? ? Hcl _]; subst. unfold Multiword.lower in Hc. simpl in Hc.
-    destruct (lower_c c); simpl in *; [discriminate|discriminate].
-  - simpl in Hc. symmetry in Hc. destruct (lower_split w rest (concat ws) Hp Hc) as (r1 & r2 & -> & H1 & H2).
-    apply len_preserving_app in Hp. destruct Hp as (Hp1 & Hp2).
-    assert (Hlw : len w = len r1) by (rewrite <- H1; now apply lower_len).
+    symmetry in Hc. apply map_eq_nil in Hc. now subst.
+  - simpl in Hc. symmetry in Hc. destruct (L_split lower_c w rest (concat ws) Hc) as (r1 & r2 & -> & H1 & H2).
+    assert (Hlw : len w = len r1) by (rewrite <- H1; apply L_len).
     destruct (alpha_words isupper s (len l1 + len done + len w) ws) as [secs' masks'] eqn:Er.
     injection H as <- <-.
     assert (Epiece : slice s (len l1 + len done) (len l1 + len done + len w) = r1).
@@ -235,33 +261,30 @@ Proof.
       apply slice_app3. }
     destruct (IH l1 (done ++ r1) r2 l3 secs' masks') as (pieces & Hcp & Hmp & -> & ->).
     + subst s. now rewrite <- !app_assoc.
-    + assumption.
     + now symmetry.
     + rewrite len_app, <- Hlw. rewrite <- Er. f_equal. lia.
-    + exists (r1 :: pieces). simpl. rewrite Epiece, Hcp, Hmp, H1. repeat split.
+    + exists (r1 :: pieces). simpl. rewrite Epiece, Hcp, Hmp, H1, Hlw. repeat split.
 Qed.
 
 Variable mwparse : str -> option (bool * list str).
-
 Hypothesis mw_concat : forall x b ws, mwparse x = Some (b, ws) -> concat ws = x.
 
-Lemma detect_alpha_spec s p f : lenp s -> detect_alpha isalpha isupper lower_c mwparse s = DYes p f ->
+Lemma detect_alpha_spec s p f : lowne lower_c s ->
+  detect_alpha isalpha isupper lower_c true mwparse s = DYes p f ->
   exists l1 l2 l3 pieces b, s = l1 ++ l2 ++ l3 /\ l2 <> [] /\
-    forallb (fun c => negb (isalpha c)) (lower l1) = true /\ forallb isalpha (lower l2) = true /\
-    stops isalpha (lower l3) /\
-    mwparse (lower l2) = Some (b, map lower pieces) /\ concat pieces = l2 /\ pieces <> [] /\
+    forallb (fun c => negb (isalpha c)) (L l1) = true /\ forallb isalpha (L l2) = true /\
+    stops isalpha (L l3) /\
+    mwparse (L l2) = Some (b, map L pieces) /\ concat pieces = l2 /\ pieces <> [] /\
     p = osec l1 ++ map (fun pc => (pc, Some (LA (len pc)))) pieces ++ osec l3 /\
-    f = (map lower pieces, map (case_mask isupper) pieces).
+    f = (map L pieces, map (case_mask isupper) pieces).
 Proof.
-  intros Hp. unfold detect_alpha.
-  destruct (first_run isalpha (lower s)) as [[a b]|] eqn:E; [|discriminate].
+  intros Hp. unfold detect_alpha. rewrite (working_aligned lower_c s Hp).
+  destruct (first_run isalpha (L s)) as [[a b]|] eqn:E; [|discriminate].
   apply first_run_spec in E. destruct E as (L1 & L2 & L3 & Es & H1 & H2 & Hne & H3 & -> & ->).
-  destruct (lower_split L1 s (L2 ++ L3) Hp Es) as (l1 & r & -> & El1 & Er).
-  apply len_preserving_app in Hp. destruct Hp as (Hp1 & Hpr).
-  destruct (lower_split L2 r L3 Hpr Er) as (l2 & l3 & -> & El2 & El3).
-  apply len_preserving_app in Hpr. destruct Hpr as (Hp2 & Hp3).
-  assert (Hl1 : len L1 = len l1) by (rewrite <- El1; now apply lower_len).
-  assert (Hl2 : len L2 = len l2) by (rewrite <- El2; now apply lower_len).
+  destruct (L_split lower_c L1 s (L2 ++ L3) Es) as (l1 & r & -> & El1 & Er).
+  destruct (L_split lower_c L2 r L3 Er) as (l2 & l3 & -> & El2 & El3).
+  assert (Hl1 : len L1 = len l1) by (rewrite <- El1; apply L_len).
+  assert (Hl2 : len L2 = len l2) by (rewrite <- El2; apply L_len).
   replace (len L1 + len L2 - 1 + 1) with (len L1 + len L2) by lia.
   rewrite Es, slice_app3.
   destruct (mwparse L2) as [[b words]|] eqn:Em; [|discriminate].
@@ -272,7 +295,6 @@ Proof.
   pose proof (mw_concat _ _ _ Em) as Hcw.
   destruct (alpha_words_spec (l1 ++ l2 ++ l3) words l1 [] l2 l3 secs masks) as (pieces & Hcp & Hmp & -> & ->).
   - reflexivity.
-  - assumption.
   - now rewrite Hcw, El2.
   - rewrite len_nil, Z.add_0_r, <- Hl1. exact Ea.
   - exists l1, l2, l3, pieces, b. subst words. rewrite El2.
@@ -280,37 +302,34 @@ Proof.
     + intros ->. now apply Enw.
     + rewrite Hl1. rewrite (pre_osec (l1 ++ l2 ++ l3) l1 (l2 ++ l3) eq_refl). f_equal.
       rewrite Hl2, sfrom_app3. f_equal.
-      * apply map_ext_in. intros pc Hin. f_equal. f_equal. f_equal. apply lower_len.
-        assert (Hpp : lenp (concat pieces)) by (now rewrite Hcp).
-        clear -Hin Hpp. induction pieces as [|q ps IH]; [contradiction|]. simpl in Hpp.
-        apply len_preserving_app in Hpp. destruct Hpp as (Hq & Hps). destruct Hin as [->|Hin]; [assumption|now apply IH].
-      * rewrite !len_app. pose proof (len_nonneg l3).
-        destruct l3 as [|c l3]; simpl.
-        -- rewrite len_nil. replace (len l1 + len l2 - 1 =? len l1 + (len l2 + 0) - 1) with true; [reflexivity|].
-           symmetry. apply Z.eqb_eq. lia.
-        -- rewrite len_cons. pose proof (len_nonneg l3).
-           replace (len l1 + len l2 - 1 =? len l1 + (len l2 + (1 + len l3)) - 1) with false; [reflexivity|].
-           symmetry. apply Z.eqb_neq. lia.
+      rewrite !len_app. pose proof (len_nonneg l3).
+      destruct l3 as [|c l3]; simpl.
+      * rewrite len_nil. replace (len l1 + len l2 - 1 =? len l1 + (len l2 + 0) - 1) with true; [reflexivity|].
+        symmetry. apply Z.eqb_eq. lia.
+      * rewrite len_cons. pose proof (len_nonneg l3).
+        replace (len l1 + len l2 - 1 =? len l1 + (len l2 + (1 + len l3)) - 1) with false; [reflexivity|].
+        symmetry. apply Z.eqb_neq. lia.
 Qed.
 
-Lemma detect_alpha_none s : detect_alpha isalpha isupper lower_c mwparse s = DNo ->
+Lemma detect_alpha_none s : lowne lower_c s ->
+  detect_alpha isalpha isupper lower_c true mwparse s = DNo ->
   (forall x, x <> [] -> mwparse x <> None) -> (forall x b, mwparse x <> Some (b, [])) ->
-  forallb (fun c => negb (isalpha c)) (lower s) = true.
+  forallb (fun c => negb (isalpha c)) (L s) = true.
 Proof.
-  unfold detect_alpha. intros H Htot Hne.
-  destruct (first_run isalpha (lower s)) as [[a b]|] eqn:E; [|now apply first_run_none].
-  exfalso. destruct (mwparse (slice (lower s) a (b + 1))) as [[bb words]|] eqn:Em; [|discriminate].
+  unfold detect_alpha. intros Hp H Htot Hne. rewrite (working_aligned lower_c s Hp) in H.
+  destruct (first_run isalpha (L s)) as [[a b]|] eqn:E; [|now apply first_run_none].
+  exfalso. destruct (mwparse (slice (L s) a (b + 1))) as [[bb words]|] eqn:Em; [|discriminate].
   destruct (alpha_words isupper s a words) as [secs masks].
   destruct words as [|w ws]; [|discriminate]. now apply (Hne _ _ Em).
 Qed.
 
 End Alpha.
 
-Lemma detect_alpha_no_err isalpha isupper lower_c mwparse s :
-  (forall x, mwparse x <> None) -> detect_alpha isalpha isupper lower_c mwparse s <> DErr.
+Lemma detect_alpha_no_err isalpha isupper lower_c aligned mwparse s :
+  (forall x, mwparse x <> None) -> detect_alpha isalpha isupper lower_c aligned mwparse s <> DErr.
 Proof.
   intros Htot. unfold detect_alpha.
-  destruct (first_run isalpha (Multiword.lower lower_c s)) as [[a b]|]; [|discriminate].
+  destruct (first_run isalpha (working lower_c aligned s)) as [[a b]|]; [|discriminate].
   destruct (mwparse _) as [[bb words]|] eqn:Em; [|now apply Htot in Em].
   destruct (alpha_words isupper s a words). destruct (nonempty words); discriminate.
 Qed.
